@@ -46,6 +46,7 @@ def tf_dec(key,tweak,block):
         if d%4==0:
             ks=sub(d//4); v=[(a-b)&M64 for a,b in zip(v,ks)]
     return unwords(v)
+TRACE=None   # set to a list to record the 128-bit tweak of every Threefish call
 T_KEY,T_CFG,T_PRS,T_PK,T_KDF,T_NON,T_MSG,T_OUT=0,4,8,12,16,20,48,63
 def ubi(G,M,Ts,bitlen=None):
     # Ts: 128-bit int starting tweak (position/treelevel/type)
@@ -65,6 +66,7 @@ def ubi(G,M,Ts,bitlen=None):
         pos=min(NM,(i+1)*nb)
         tw=Ts+pos+((1<<126) if i==0 else 0)+(((1<<127)+(B<<119)) if i==k-1 else 0)
         blk=M[i*nb:(i+1)*nb]
+        if TRACE is not None: TRACE.append(tw)
         E=tf_enc(H,tw.to_bytes(16,'little'),blk)
         H=bytes(a^b for a,b in zip(E,blk))
     return H
